@@ -9,6 +9,7 @@ import ParryModel.C16.Theorems5
 import ParryModel.C16.Theorems6
 import ParryModel.C16.Theorems7
 import ParryModel.C16.Theorems8
+import ParryModel.C16.Theorems9
 /-!
 # C16 property theorems: ear clipping and Hertel–Mehlhorn, for every linearly ordered field.
 
